@@ -763,6 +763,56 @@ def rule_pu2(ctx: Ctx) -> RuleResult:
     loops = [n for n in ast.walk(fn) if isinstance(n, ast.For)]
     ok = any(ast.unparse(l.iter) == m.scopes[fn].params[0] for l in loops)
     r.ob(ok, lambda: Finding("PU-2", "%s::create_record._create_record{rows}" % PQ, m.where(fn), "the record builder must iterate over all rows of the batch"))
+    # transpose: the value appended to the buffer of column k is row[<name of column k in the schema>]
+    r.groups.add(("create_record", "transpose"))
+    saw_append = False
+    DATA = ("arg", m.scopes[fn].params[0])
+    for p in ctx.fn_paths(m, fn, max_iter=1):
+        r.paths += 1
+        loops = {e.loop: e for e in p.trace if e.k == "loopiter"}
+
+        def loop_of(t):
+            return loops.get(t[1]) if t[0] == "loopvar" else None
+
+        def is_names(t):
+            return t[0] == "attr" and t[2] == "names" and t[1][0] in ("param", "arg") and t[1][1] == "schema"
+        for e in p.trace:
+            if e.k != "mutate" or e.method != "append" or not e.args:
+                continue
+            base, val = e.base, e.args[0]
+            if val[0] != "sub":
+                continue
+            row, name = val[1], val[2]
+            lr = loop_of(row)
+            if lr is None or lr.iter != DATA:
+                continue
+            saw_append = True
+            ok = False
+            # for i, n in enumerate(names): buffers[i].append(row[n])
+            if name[0] == "sub" and name[2] == ("const", 1) and loop_of(name[1]) is not None:
+                lp = loop_of(name[1])
+                it = lp.iter
+                if it[0] == "call" and it[1] == ("builtin", "enumerate") and len(it[2]) == 1 and is_names(it[2][0]):
+                    ok = base[0] == "sub" and base[2] == ("sub", name[1], ("const", 0))
+                elif it[0] == "call" and it[1] == ("builtin", "zip") and len(it[2]) == 2 and is_names(it[2][1]):
+                    ok = base == ("sub", name[1], ("const", 0))          # for buf, n in zip(buffers, names)
+            elif name[0] == "sub" and name[2] == ("const", 0) and loop_of(name[1]) is not None:
+                it = loop_of(name[1]).iter
+                if it[0] == "call" and it[1] == ("builtin", "zip") and len(it[2]) == 2 and is_names(it[2][0]):
+                    ok = base == ("sub", name[1], ("const", 1))          # for n, buf in zip(names, buffers)
+            elif name[0] == "sub" and is_names(name[1]) and loop_of(name[2]) is not None:
+                it = loop_of(name[2]).iter                              # for i in range(len(names)): buffers[i].append(row[names[i]])
+                if it[0] == "call" and it[1] == ("builtin", "range") and len(it[2]) == 1 and it[2][0][0] == "call" and it[2][0][1] == ("builtin", "len") \
+                        and is_names(it[2][0][2][0]):
+                    ok = base[0] == "sub" and base[2] == name[2]
+            elif loop_of(name) is not None and is_names(loop_of(name).iter):
+                ok = False      # for n in names: ... needs its own column index; not a recognised transpose
+            r.ob(ok, lambda e=e: Finding(
+                "PU-2", "%s::create_record._create_record{transpose}" % PQ, e.where(),
+                "the buffer of column k must receive row[<k-th name of the schema>] for every row; here %s: values land in the column given by "
+                "something else than the schema order (e.g. the key order of the row)" % e.brief(), trace_of(p)))
+    r.ob(saw_append, lambda: Finding("PU-2", "%s::create_record._create_record{transpose}" % PQ, m.where(fn),
+                                     "no per-column append of row[name] found in the record builder"))
     # stage order of dump_to_file
     md, fd = ctx.function(PQ, "dump_to_file")
     if len([1 for x in ctx.functions_named(PQ, "dump_to_file")]) < 1:
